@@ -1208,6 +1208,8 @@ func pkProj(env *zygo.Zlisp, x zygo.Sexp, depth int) any {
 		return []any{"fn", 0}
 	case *zygo.SexpStr:
 		return []any{"str", v.S}
+	case *zygo.SexpSymbol:
+		return []any{"sym", v.Name()}
 	case *zygo.Stack:
 		if v.IsPackage {
 			return []any{"pkg", 0}
